@@ -88,6 +88,18 @@ def gen_factory(tier):
             ops.append(op_dump())
             yield Case("u%d" % n, ops, {"kind": "unary", "x": x.hex()})
             n += 1
+        # G1b: every byte value on its own and next to the ends of the letter ranges (case mapping and trimming are byte-wise)
+        for b in range(1, 256):
+            for x in (bytes([b]), bytes([0x41, b, 0x5a, 0x61, b, 0x7a])):
+                ops = [op_ctx(), op_setvar("X", sspec(x))]
+                for k, e in enumerate(UNARY_S):
+                    ops.append(op_run(guarded(e, "r%d" % k)))
+                ops.append(op_run('begin r90 = num(x); exception when out_of_range then r90 = "E:OOR"; end;'))
+                ops.append(op_run('begin r91 = int(x); exception when out_of_range then r91 = "E:OOR"; end;'))
+                ops += chained(UNARY_S)
+                ops.append(op_dump())
+                yield Case("u%d" % n, ops, {"kind": "unary", "x": x.hex()})
+                n += 1
         # G2: (string, position)
         for x in strings(A4, 3 if thorough else 2):
             for y in [b"a", b"", b"ab", b","]:
@@ -141,7 +153,10 @@ def gen_factory(tier):
                 b"2e-324", b"1e-400", b"-1e-400", b"1e999", b"9e999", b"0x1p1023", b"0x1p1024", b"0x1p-1074", b"0x1p-1076", b"0x1p2000", b"inf", b"-inf",
                 b"nan", b"infinity", b"1e+308", b"1E309", b"9" * 400, b"0." + b"0" * 400 + b"1", b"9223372036854775807", b"9223372036854775808",
                 b"-9223372036854775808", b"-9223372036854775809", b"18446744073709551615", b"18446744073709551616", b"0x7fffffffffffffff",
-                b"0xffffffffffffffff", b"0x10000000000000000", b"1e19", b"  1e309", b"1e309  ", b"+1e309", b".5e-324"]
+                b"0xffffffffffffffff", b"0x10000000000000000", b"1e19", b"  1e309", b"1e309  ", b"+1e309", b".5e-324",
+                # leading zeros are not a base prefix
+                b"010", b"08", b"0009", b"-017", b"0777", b"00", b"+010", b"000000000000000000000012", b"0100000000000000000000", b"-08", b"09223372036854775807",
+                b"012345678", b"0b11", b"0o17", b"1_000", b"0x", b"0x0x1", b"0X1F", b"-0x10", b"+0x10", b"0x-1"]
         for s0 in EDGE:
             for var in (s0, s0 + b"x", b" " + s0):
                 ops = [op_ctx(), op_setvar("X", sspec(var)), op_run("r0 = isnum(x);"),
@@ -482,6 +497,18 @@ def check(case, res):
         if isn2[0] != "b" or isn2[1] != num2_ok:
             bad("isnum-vs-num:bytes", "isnum(raw(x)) = %r but num(raw(x)) -> %s %r" % (isn2, s4, val(dump, "R4")))
         unchanged("X", sspec(unhex(m["x"])))
+        # int(x) of a string of decimal digits (optional blanks in front, optional sign) is that number, whatever its leading zeros
+        import re as _re
+        xs = unhex(m["x"])
+        mm = _re.match(rb"^[ \t\n\v\f\r]*([+-]?[0-9]+)$", xs)
+        if mm:
+            want = int(mm.group(1))
+            g = val(dump, "R2")
+            if -2 ** 63 <= want < 2 ** 63:
+                if g != ("i", want):
+                    bad("model:int-of-decimal-string", "int(%r) gave %r, expected %d" % (xs, g, want))
+            elif g != ("s", b"E:OOR"):
+                bad("model:int-of-decimal-string:range", "int(%r) gave %r, expected OUT_OF_RANGE" % (xs, g))
         return vs, True
 
     if kind == "convi":
